@@ -14,11 +14,11 @@ import (
 
 // C09 — no crash, no hang, failures signalled, nonsense refused.
 type C09 struct {
-	w     Workload
-	stats *Stats
-	cuts  []*Case // enumerated cases (truncation offsets, flag values; built in Prepare)
-	nRand int
-	nflag int
+	w       Workload
+	stats   *Stats
+	cuts    []*Case // enumerated cases (truncation offsets, flag values; built in Prepare)
+	nRand   int
+	nflag   int
 	ngrowth int
 }
 
@@ -80,6 +80,54 @@ func (p *C09) Prepare(env *Env, tier string, seed uint64) error {
 			p.cuts = append(p.cuts, &Case{Property: "C09", Kind: "single", Seed: seed, Run: 1_000_000 + len(p.cuts), Steps: []Step{st},
 				Labels: []string{"fault:F6:yaml-shape", "yaml-shape-enumeration"}})
 			p.nflag++
+		}
+	}
+	// two dictionary files whose names and display symbols cross (a faulty chord
+	// in one file sits behind a name another file's display symbol also
+	// claims): every combination, both file orders, four commands
+	crossBad := []string{
+		"- name: Twist\n  meta:\n    display: tw\n  extends: Twist\n",
+		"- name: Twist\n  meta:\n    display: tw\n  extends: tw\n",
+		"- name: Twist\n  meta:\n    display: tw\n  extends: tw\n  attributes:\n    - Augmented4\n",
+		"- name: Twist\n  meta:\n    display: tw\n  extends: Nowhere\n",
+		"- name: Twist\n  meta:\n    display: tw\n  attributes:\n    - NoSuchAttr\n",
+		"- name: Twist\n  meta:\n    display: tw\n  extends: Other\n- name: Other\n  meta:\n    display: ot\n  extends: Twist\n",
+	}
+	crossGood := []string{
+		"- name: Cover\n  meta:\n    display: Twist\n  attributes:\n    - Perfect1\n",
+		"- name: tw\n  meta:\n    display: Twist\n  attributes:\n    - Perfect1\n",
+		"- name: Cover\n  meta:\n    display: tw\n  attributes:\n    - Perfect1\n",
+	}
+	for _, bad := range crossBad {
+		for _, good := range crossGood {
+			for oi, order := range [][]string{{"/sim/one.yml", "/sim/two.yml"}, {"/sim/two.yml", "/sim/one.yml"}} {
+				for _, nm := range []string{"Twist", "tw", "Cover"} {
+					for ci := 0; ci < 3; ci++ {
+						var argv []string
+						var in []byte
+						_ = oi
+						switch ci {
+						case 0:
+							argv = []string{"info", "chord", "describe", "-t", "C_" + nm}
+						case 1:
+							argv = []string{"write", "event"}
+							in = []byte("- chord:\n    degree: \"1\"\n    name: \"" + nm + "\"\n  values:\n    - \"1\"\n")
+						default:
+							argv = []string{"write"}
+							in = []byte("- chord:\n    degree: \"1\"\n    name: \"" + nm + "\"\n  values:\n    - \"1\"\n")
+						}
+						argv = append(argv, "--chord", order[0], "--chord", order[1])
+						st := Step{Step: simrt.Step{Argv: argv, Seed: seed + uint64(len(p.cuts)),
+							Files: map[string]*simrt.FileSpec{"/sim/one.yml": {Data: []byte(bad)}, "/sim/two.yml": {Data: []byte(good)}}}}
+						if in != nil {
+							st.Stdin = &simrt.Stream{Data: in}
+						}
+						p.cuts = append(p.cuts, &Case{Property: "C09", Kind: "single", Seed: seed, Run: 1_000_000 + len(p.cuts), Steps: []Step{st},
+							Labels: []string{"fault:F10:dictionary", "crossing-dictionaries"}})
+						p.nflag++
+					}
+				}
+			}
 		}
 	}
 	// alias bombs: one anchored instance with k durations and m aliases of it.
@@ -1384,7 +1432,7 @@ func (p *C09) Assumptions() []string {
 	return []string{
 		"termination is judged by the logical clock: budget 2e7 + 100*bytes (+ track-count and max-degree terms) ticks, measured cost is about 10 ticks per byte; eof-spin = more than 10000 reads after EOF; a 300 s wall-clock backstop",
 		"a mid-stream read error (EIO and friends) and a destination that fills up or breaks after k bytes (stdout as crd names it, -o file) are injected and must not end in exit 0; errors of Close, EPIPE and errors on stderr are not injected",
-			"'promptly' is judged on the logical clock of crd's own code (budget and growth ratio n vs 4n <= 9); real time spent inside dependencies is not judged below the 300 s backstop",
+		"'promptly' is judged on the logical clock of crd's own code (budget and growth ratio n vs 4n <= 9); real time spent inside dependencies is not judged below the 300 s backstop",
 		"crd write play / crd midi port are not exercised",
 		"--track between 70001 and 2e9-1 and gen attr -d above 1500 are not generated (legitimately heavy work, not a hang)",
 		"an exit-0 run that logged at ERROR level is judged a failure that was not signalled (crd logs at ERROR level only when a command fails)",
